@@ -3,3 +3,5 @@ BINS := c08_scalars
 c08_scalars_OBJS := c08_scalars
 BINS += c20_numbers
 c20_numbers_OBJS := c20_numbers
+BINS += c13_wrapped
+c13_wrapped_OBJS := c13_wrapped
